@@ -149,3 +149,5 @@ def run(F, rep, tier):
               "a solve body calls a clock / random / process-state source: %s" % nd[:4])
     from rules.loopshape import c19_step_nesting
     c19_step_nesting(F, rep)
+    from rules.loopshape import c19_hash_order_sensitive_use
+    c19_hash_order_sensitive_use(F, rep)
